@@ -232,6 +232,38 @@ def generate(rng, tier):
     for c in nm_cases(rng, quick):
         yield c
 
+    # ---- 13. primitive kernels of base/src/ring/div_rem.rs: every op x every machine type on boundary
+    #          values (MIN, MIN+1, -1, 0, 1, 2, MAX-1, MAX, random); the 8-bit types exhaustively
+    for c in prim_cases(rng, quick):
+        yield c
+
+
+PRIM_TYPES = [("u8", 8, False), ("u16", 16, False), ("u32", 32, False), ("u64", 64, False), ("u128", 128, False),
+              ("usize", 64, False), ("i8", 8, True), ("i16", 16, True), ("i32", 32, True), ("i64", 64, True),
+              ("i128", 128, True), ("isize", 64, True)]
+PRIM_OPS = ["divrem", "divremassign", "diveuclid", "remeuclid", "divremeuclid"]
+
+
+def prim_cases(rng, quick):
+    for name, bits, signed in PRIM_TYPES:
+        lo = -(1 << (bits - 1)) if signed else 0
+        hi = (1 << (bits - 1)) - 1 if signed else (1 << bits) - 1
+        base = [lo, lo + 1, lo + 2, -2, -1, 0, 1, 2, 3, hi - 1, hi, hi // 2, lo // 2, 7, -7, 10]
+        vals = sorted(set(v for v in base if lo <= v <= hi))
+        for op in PRIM_OPS:
+            for a in vals:
+                for b in vals:
+                    if quick and rng.random() < 0.8 and not (b in (0, -1) and a == lo):
+                        continue
+                    yield Case("p." + op, [name, hx(a), hx(b)])
+            for i in range(10 if quick else 300):
+                yield Case("p." + op, [name, hx(rng.randint(lo, hi)), hx(rng.randint(lo, hi))])
+    for name, lo, hi in (("u8", 0, 255), ("i8", -128, 127)):
+        for op in PRIM_OPS:
+            avals = range(lo, hi + 1) if not quick else [lo, lo + 1, -1 if lo < 0 else 1, 0, 7, hi]
+            for a in avals:
+                yield Case("p.sweep", [name, op, hx(a)])
+
 
 def nm_cases(rng, quick):
     def norm_word(w):
@@ -289,7 +321,7 @@ _C02 = ["truncating_conventions", "euclidean_conventions",
         "const_divisor_new_value", "const_divisor_eq_plain", "const_divisor_ibig_exact",
         "nm_invert_word_exact", "nm_div_rem_2by1_exact", "nm_invert_double_word_exact",
         "nm_div_rem_3by2_exact", "nm_div_rem_4by2_exact", "nm_contracts_discharged",
-        "div_scratch_memory_suffices"]
+        "div_scratch_memory_suffices", "prim_zero_divisor", "prim_min_neg_one", "prim_kernels_exact"]
 _GEN = ["ibig_div_exact", "ibig_rem_exact", "ibig_divrem_exact", "ibig_div_euclid_exact",
         "ibig_rem_euclid_exact", "ibig_divrem_euclid_exact", "ubig_ibig_rem_exact", "ubig_ibig_divrem_exact"]
 THEOREMS = ["Dashu.Props.C02." + t for t in _C02] + ["Dashu.Props.GenInt." + t for t in _GEN]
@@ -309,6 +341,7 @@ REFINED = [
     "DivRem / Div / Rem for TypedRepr (all four size-class arms, zero divisor -> panic_divide_by_0)",
     "TypedRepr::add_one; impl_ibig_div, impl_ibig_rem, impl_ibig_divrem, impl_ibig_div_euclid, impl_ibig_rem_euclid, impl_ibig_divrem_euclid, impl_ubig_ibig_rem, impl_ubig_ibig_divrem (model glue = glue regenerated from /repo = Int.tdiv/tmod resp. ediv/emod)",
     "UBig::is_multiple_of, IBig::is_multiple_of, is_multiple_of_const (non-zero double-word divisor)",
+    "base/src/ring/div_rem.rs impl_div_rem_ops_prim (DivRem, DivRemAssign, DivRemEuclid with its sign fix-up and overflow checks; DivEuclid/RemEuclid forward to std) for every machine integer type: zero divisor and MIN / -1 panic, otherwise tdiv/tmod resp. Euclidean quotient/remainder, all in range",
     "div::memory_requirement_exact / divide_conquer::memory_requirement_exact: sufficient for every scratch allocation of div_rem_in_place, all operand lengths (memory.rs 'not enough memory allocated' unreachable)",
     "num-modular 0.6 Normalized2by1Divisor::{invert_word, div_rem_1by1, div_rem_2by1} and Normalized3by2Divisor::{invert_double_word, div_rem_2by2, div_rem_3by2, div_rem_4by2} (Moeller-Granlund Algorithms 4, 5, 6 with every wrapping operation) = floor division under the crate's preconditions; the division model's contract parameters are discharged (nm_contracts_discharged)",
     "ConstDivisor::new (single/double/large, zero -> divide-by-zero panic), value(); div_rem_small_single, div_rem_small_double, ConstSingleDivisor::{rem_dword, rem_large}, ConstDoubleDivisor::{rem_dword, rem_large}; Div / Rem / DivRem<&ConstDivisor> for TypedRepr, IBig forms",
@@ -332,6 +365,7 @@ EXPLANATION = ("Theorems (all W >= 1 for the word/double-word/Knuth-D kernels, W
                "is_multiple_of, ConstDivisor (new/value and Div/Rem/DivRem for UBig and IBig) = plain division. The IBig and mixed sign tables executed by the model are proved equal "
                "to the glue regenerated from /repo's macros (Tie A), whose meaning (Int.tdiv/tmod, Int.ediv/emod) is proved in Props/GenInt. num-modular's dividers (Moeller-Granlund) are mirrored and proved equal to floor division, so no contract parameter remains besides std bit intrinsics.")
 ASSUMPTIONS = [
+               "Rust's primitive `/`, `%` (truncating; panic on zero divisor and on MIN / -1 in every profile) and std `div_euclid` / `rem_euclid` at their documented meaning",
                "u64::leading_zeros, trailing_zeros, is_power_of_two, <<, >>, &, | at their documented meaning",
                ]
 TRUSTED = ["the hand-written mirror of num-modular's dividers is tied to the crate by direct calls (nm.* ops at W = 8/16/32/64, exhaustive sweeps of the 8-bit instance in the thorough tier)"]
